@@ -1,10 +1,24 @@
 """C02: outbound stream integrity and ordering (reactor model + trace acceptance)."""
 import tops
 from reactor import components
+from props.c03 import WakeC, WakeOpt
+
+
+class WakeOrder(WakeC):
+    """the hand-over half of C02 ('asynchronous writes issued by one goroutine in issue order'): the wake-up
+    protocol under schedule exploration, fewer cases than in C03's own check"""
+    def gen_args(self, tier, seed):
+        if tier == "quick":
+            return [["-seed", str(seed + 7), "-cases", "120", "-exhaustive", "0"], ["-seed", str(seed + 7), "-cases", "0", "-exhaustive", "300"]]
+        return [["-seed", str(seed + 7), "-cases", "2000", "-exhaustive", "0"], ["-seed", str(seed + 7), "-cases", "0", "-exhaustive", "10000"]]
+
+
+class WakeOrderOpt(WakeOpt):
+    gen_args = WakeOrder.gen_args
 
 
 def main(tier, replay):
-    return tops.run("C02", components(['stream']), tier,
+    return tops.run("C02", components(['stream']) + [WakeOrder(), WakeOrderOpt()], tier,
                     level_text="Props/C02.lean: toKernel ++ outbound = accepted is an invariant of every accepted round. The model is a trace acceptor over abstract FIFO buffers (justified by the C09/C10/C11 refinements); it is tied to the code by trace acceptance: one REAL event loop on real sockets runs step by step, every system call goes through a logging / fault-injecting shim, and every round's log must be accepted by the model (kernel results and handler actions are inputs, system-call requests, callbacks and method results are predictions). Independent oracles check the property end to end on the same runs",
                     assumptions=["Linux socket and epoll semantics (real kernel in the runs, inputs of the model)",
                                  "instrumentation (selector renaming to the shim, entry logging) does not change behaviour",
